@@ -449,7 +449,7 @@ func main() {
 
 	// 2. sampled part: PRNG params, limits, 1..5 frames of PRNG size vectors, PRNG start sequence numbers
 	fs := codecs.All()
-	nSeq := run.Pick(6000, 140000) // per format and shard
+	nSeq := run.Pick(6000, 400000) // per format and shard
 	const shards = 16
 	run.Parallel(len(fs)*shards, func(_, i int) {
 		f := fs[i/shards]
